@@ -8,6 +8,7 @@ import (
 
 	capnp "capnproto.org/go/capnp/v3"
 	"capnproto.org/go/capnp/v3/internal/errors"
+	"capnproto.org/go/capnp/v3/internal/verifhook"
 	rpccp "capnproto.org/go/capnp/v3/std/capnp/rpc"
 )
 
@@ -125,6 +126,7 @@ func (s *transport) NewMessage(ctx context.Context) (_ rpccp.Message, send func(
 		}
 
 		// ok, go!
+		verifhook.Yield(830)
 		if err = s.c.Encode(ctx, msg); err != nil {
 			if _, ok := err.(partialWriteError); ok {
 				s.err.Set(errors.New(errors.Disconnected, "rpc stream transport", "broken due to partial write"))
@@ -159,6 +161,7 @@ func (s *transport) RecvMessage(ctx context.Context) (rpccp.Message, capnp.Relea
 		return rpccp.Message{}, nil, err
 	}
 
+	verifhook.Yield(831)
 	msg, err := s.c.Decode(ctx)
 	if err != nil {
 		return rpccp.Message{}, nil, errors.New(errors.Failed, "rpc stream transport", "receive: "+err.Error())
@@ -173,6 +176,7 @@ func (s *transport) RecvMessage(ctx context.Context) (rpccp.Message, capnp.Relea
 // Close closes the underlying ReadWriteCloser.  It is not safe to call
 // Close concurrently with any other operations on the transport.
 func (s *transport) Close() error {
+	verifhook.Yield(832)
 	if s.closed {
 		return errors.New(errors.Disconnected, "rpc stream transport", "already closed")
 	}
